@@ -94,6 +94,8 @@ def _one(job):
     try:
         prog = Program(root, overlay=ov)
         ck = report.Checker(pid, prog, "quick", root)
+        from .rules import common
+        common.closed_world(ck)          # as ./check does: a variant the analyser has to refuse is an error, not a silent pass
         mod.run(ck)
     except Exception as exc:  # noqa
         # like ./check: findings made before the analyser gave up are reported as findings
@@ -141,6 +143,14 @@ def run(ck, mod):
                 killed += 1
             else:
                 problems.append("armed variant %s not reported by %s (got %s %s)" % (name, v["expect"], status, new[:3]))
+        elif v.get("kind") == "refused":
+            # behaviour-preserving, but outside what the analyser models (metaprogramming): the accepted outcomes are a refusal
+            # (ANALYSIS-ERROR) or silence - never a violation
+            neutral += 1
+            if status == "error" or (status == "ran" and not new):
+                silent += 1
+            else:
+                problems.append("neutral (refusable) variant %s raised %s %s" % (name, status, new[:3]))
         else:
             neutral += 1
             if status == "ran" and not new:
